@@ -1089,7 +1089,9 @@ def run(ctx):
         mesh = gen_polyline(ctx.rng, long=True)
         nvx = len(mesh["V"])
         what = ctx.rng.choice(["edge_tree", "kruskal", "edge_forest"])
-        c = {"mesh": mesh, "what": what, "kind": "edge", "read_order": ctx.rng.randrange(12), "calls": 1,
+        # (unary-nat arithmetic makes 300 elements too slow for the kernel-evaluated batches: these few cases are checked
+        #  by the oracle only, and counted as such)
+        c = {"mesh": mesh, "what": what, "kind": "edge", "read_order": ctx.rng.randrange(12), "calls": 1, "oracle_only": True,
              "root_repr": ctx.rng.choice(["int", "int64", "int32"])}
         if what == "edge_tree":
             c.update(op="tree", root=ctx.rng.randrange(256, nvx), avoid_boundary=False,
@@ -1114,121 +1116,135 @@ def run(ctx):
                     cases.append({"mesh": mesh, "what": "kruskal", "op": "kruskal", "kind": "edge", "root": r,
                                   "avoid_boundary": False, "weights": "length"})
 
-    nsh = max(1, min(core.NCPU, len(cases) // 40))
-    payloads = [{"cases": cases[i::nsh], "case_timeout": 90} for i in range(nsh)]
-    results = core.run_impl_parallel(DRIVER, payloads, timeout=1500)
-    obs = [None] * len(cases)
-    for i, r in enumerate(results):
-        for j, o in zip(range(i, len(cases), nsh), r["results"]):
-            obs[j] = o
+    fails, replaced, disagree, total, disagree_unknown = [], [], [], [0], [0]
 
-    # a crash / timeout inside a shared shard can be an artefact of machine load: such cases are re-run alone; every
-    # replaced crash is kept in the evidence and more than 2% of them fails the run
-    replaced = []
-    for idx, o in enumerate(obs):
-        if o is None or "crash" in o:
-            first = "no result" if o is None else o["crash"]
-            for attempt in range(2):
-                try:
-                    o2 = core.run_impl(DRIVER, {"cases": [cases[idx]], "case_timeout": 240}, timeout=400)["results"][0]
-                except Exception as ex:  # noqa
-                    o2 = {"op": cases[idx]["op"], "kind": cases[idx]["kind"], "crash": "driver failed: %r" % ex}
-                obs[idx] = o2
-                if "crash" not in o2:
-                    replaced.append((idx, first))
-                    break
-            ctx.count("re-run alone after a crash/timeout in a shard")
-    for idx, first in replaced[:10]:
-        ctx.notes.append("case %d (%s) crashed inside its shard with `%s` and ran cleanly alone" % (idx, cases[idx]["what"], first[:120]))
+    def process(cases, tag):
+        """one chunk: run the implementation, oracle, kernel-checked correspondence (bounded memory in the thorough tier)"""
+        nsh = max(1, min(core.NCPU, len(cases) // 40))
+        payloads = [{"cases": cases[i::nsh], "case_timeout": 90} for i in range(nsh)]
+        results = core.run_impl_parallel(DRIVER, payloads, timeout=1500)
+        obs = [None] * len(cases)
+        for i, r in enumerate(results):
+            for j, o in zip(range(i, len(cases), nsh), r["results"]):
+                obs[j] = o
+
+        # a crash / timeout inside a shared shard can be an artefact of machine load: such cases are re-run alone; every
+        # replaced crash is kept in the evidence and more than 2% of them fails the run
+        for idx, o in enumerate(obs):
+            if o is None or "crash" in o:
+                first = "no result" if o is None else o["crash"]
+                for attempt in range(2):
+                    try:
+                        o2 = core.run_impl(DRIVER, {"cases": [cases[idx]], "case_timeout": 240}, timeout=400)["results"][0]
+                    except Exception as ex:  # noqa
+                        o2 = {"op": cases[idx]["op"], "kind": cases[idx]["kind"], "crash": "driver failed: %r" % ex}
+                    obs[idx] = o2
+                    if "crash" not in o2:
+                        replaced.append((cases[idx]["what"], first))
+                        break
+                ctx.count("re-run alone after a crash/timeout in a shard")
+        total[0] += len(cases)
+
+        n_sess = sum(1 for c in cases if c.get("op") == "session")
+        cases, obs = expand_sessions(cases, obs)
+        ctx.count("sessions (several objects in one interpreter, mutated exclusion sets in between)", n_sess)
+
+        # ---- bookkeeping + oracle (search for a concrete failing input)
+        for idx, (c, o) in enumerate(zip(cases, obs)):
+            ctx.count("op " + c["what"])
+            ctx.count("mesh " + c["mesh"]["type"])
+            ctx.count("shape " + c["mesh"].get("shape", "?"))
+            if c.get("session"):
+                ctx.count("object built inside a session" + (" without its optional arguments" if c.get("omit_optional") else ""))
+            if c.get("excl") is not None:
+                ctx.count("with exclusion set")
+            if c.get("avoid_boundary"):
+                ctx.count("avoid_boundary")
+            if c.get("pre"):
+                ctx.count("scenario " + ("persistent edge_length then vertices moved" if c["pre"].get("persist_length")
+                                         else "pre-existing 'length' attribute with arbitrary values"))
+            if c["op"] == "kruskal":
+                w = c["weights"]
+                ctx.count("weights " + (w if isinstance(w, str) else w["as"]))
+            nontriv = False
+            if "crash" not in o:
+                n_el = o.get("n", 0)
+                ctx.count("elements<=%d" % (10 * ((n_el + 9) // 10)))
+                if o.get("err"):
+                    ctx.count("rejected root")
+                elif c["op"] == "forest":
+                    ctx.count("forest trees=%s" % (o["n_trees"] if o["n_trees"] < 4 else ">=4"))
+                    nontriv = o["n_trees"] >= 2 or n_el >= 3
+                else:
+                    nontriv = len(o["bfs"]) >= 3
+                    ctx.count("reached whole mesh" if len(o["bfs"]) == n_el else "reached a proper part")
+            if c["op"] in ("tree", "kruskal") and c.get("root") is None:
+                ctx.count("root drawn by the constructor")
+            if c["op"] in ("tree", "kruskal") and c.get("root") is not None and c["root"] < 0:
+                ctx.count("negative root")
+            ctx.count("compute() called %d time(s)" % c.get("calls", 1))
+            if c["op"] in ("tree", "kruskal") and c.get("root") is not None:
+                ctx.count("root given as " + c.get("root_repr", "int"))
+            ctx.count("call form " + c.get("call_form", "mixed"))
+            if c.get("excl") is not None:
+                ctx.count("exclusion set as " + c.get("excl_repr", "set"))
+            if isinstance(c.get("weights"), dict):
+                ctx.count("custom weights as %s, scale 2^%s" % (c["weights"].get("num", "float"), c["weights"].get("scale_exp", 0)))
+            ctx.case_seen([c["mesh"]["V"], c["mesh"]["E"], c["mesh"]["F"], c["mesh"]["C"], c["op"], c["kind"], c.get("root"),
+                           c.get("excl"), c.get("avoid_boundary"), c.get("weights") if isinstance(c.get("weights"), str) else "custom",
+                           c.get("pre"), c["mesh"].get("pre_V"), c.get("read_order"), c.get("calls", 1), c.get("omit_optional"), c.get("root_repr"), c.get("call_form"), c.get("excl_repr"),
+                           c.get("flag_repr"),
+                           json.dumps(c["session"]["steps"]) if c.get("session") else None],
+                          nontrivial=nontriv,
+                          sample={"op": c["what"], "mesh": c["mesh"]["shape"], "root": c.get("root"),
+                                  "n": o.get("n"), "edges": o.get("edges", [])[:8]} if nontriv else None)
+            m = oracle(c, o)
+            if m:
+                fails.append((c, m))
+
+        # ---- kernel-checked correspondence
+        bad = {}
+        if b["model_ok"]:
+            groups = {"tree": ([], [], "check_tree", "tcase", tree_term),
+                      "forest": ([], [], "check_forest", "fcase", forest_term),
+                      "kruskal": ([], [], "check_kruskal", "kcase", kruskal_term)}
+            for idx, (c, o) in enumerate(zip(cases, obs)):
+                if "crash" in o:
+                    continue
+                if c.get("oracle_only"):
+                    ctx.count("checked by the oracle only (more than 256 elements)")
+                    continue
+                g = groups[c["op"]]
+                g[0].append(idx)
+                g[1].append(g[4](c, o))
+            for name, (idxs, terms, fn, ty, _) in groups.items():
+                r = ctx.run_cases(name + tag, HEADER, terms, fn, case_type=ty, shard=60 if quick else 120, timeout=900)
+                for i in (r or [])[:3]:
+                    disagree.append((cases[idxs[i]], obs[idxs[i]]))
+                if r is None:
+                    disagree_unknown[0] += 1
+
+
+    CH = 3000
+    if not b["model_ok"]:
+        ctx.obligation("correspondence batches", "correspondence", False, "model does not compile")
+    for k in range(0, len(cases), CH):
+        process(cases[k:k + CH], "" if len(cases) <= CH else "_%02d" % (k // CH))
+    n_all = total[0]
+    for what, first in replaced[:10]:
+        ctx.notes.append("a case (%s) crashed inside its shard with `%s` and ran cleanly alone" % (what, first[:120]))
     ctx.obligation("harness: at most 2%% of the cases needed a re-run after a crash/timeout in their shard (%d of %d)"
-                   % (len(replaced), len(cases)), "harness", len(replaced) * 50 <= len(cases),
-                   "; ".join("%d: %s" % (i, f[:80]) for i, f in replaced[:5]))
-
-    n_sess = sum(1 for c in cases if c.get("op") == "session")
-    cases, obs = expand_sessions(cases, obs)
-    ctx.count("sessions (several objects in one interpreter, mutated exclusion sets in between)", n_sess)
-
-    # ---- bookkeeping + oracle (search for a concrete failing input)
-    fails = []
-    for idx, (c, o) in enumerate(zip(cases, obs)):
-        ctx.count("op " + c["what"])
-        ctx.count("mesh " + c["mesh"]["type"])
-        ctx.count("shape " + c["mesh"].get("shape", "?"))
-        if c.get("session"):
-            ctx.count("object built inside a session" + (" without its optional arguments" if c.get("omit_optional") else ""))
-        if c.get("excl") is not None:
-            ctx.count("with exclusion set")
-        if c.get("avoid_boundary"):
-            ctx.count("avoid_boundary")
-        if c.get("pre"):
-            ctx.count("scenario " + ("persistent edge_length then vertices moved" if c["pre"].get("persist_length")
-                                     else "pre-existing 'length' attribute with arbitrary values"))
-        if c["op"] == "kruskal":
-            w = c["weights"]
-            ctx.count("weights " + (w if isinstance(w, str) else w["as"]))
-        nontriv = False
-        if "crash" not in o:
-            n_el = o.get("n", 0)
-            ctx.count("elements<=%d" % (10 * ((n_el + 9) // 10)))
-            if o.get("err"):
-                ctx.count("rejected root")
-            elif c["op"] == "forest":
-                ctx.count("forest trees=%s" % (o["n_trees"] if o["n_trees"] < 4 else ">=4"))
-                nontriv = o["n_trees"] >= 2 or n_el >= 3
-            else:
-                nontriv = len(o["bfs"]) >= 3
-                ctx.count("reached whole mesh" if len(o["bfs"]) == n_el else "reached a proper part")
-        if c["op"] in ("tree", "kruskal") and c.get("root") is None:
-            ctx.count("root drawn by the constructor")
-        if c["op"] in ("tree", "kruskal") and c.get("root") is not None and c["root"] < 0:
-            ctx.count("negative root")
-        ctx.count("compute() called %d time(s)" % c.get("calls", 1))
-        if c["op"] in ("tree", "kruskal") and c.get("root") is not None:
-            ctx.count("root given as " + c.get("root_repr", "int"))
-        ctx.count("call form " + c.get("call_form", "mixed"))
-        if c.get("excl") is not None:
-            ctx.count("exclusion set as " + c.get("excl_repr", "set"))
-        if isinstance(c.get("weights"), dict):
-            ctx.count("custom weights as %s, scale 2^%s" % (c["weights"].get("num", "float"), c["weights"].get("scale_exp", 0)))
-        ctx.case_seen([c["mesh"]["V"], c["mesh"]["E"], c["mesh"]["F"], c["mesh"]["C"], c["op"], c["kind"], c.get("root"),
-                       c.get("excl"), c.get("avoid_boundary"), c.get("weights") if isinstance(c.get("weights"), str) else "custom",
-                       c.get("pre"), c["mesh"].get("pre_V"), c.get("read_order"), c.get("calls", 1), c.get("omit_optional"), c.get("root_repr"), c.get("call_form"), c.get("excl_repr"),
-                       c.get("flag_repr"),
-                       json.dumps(c["session"]["steps"]) if c.get("session") else None],
-                      nontrivial=nontriv,
-                      sample={"op": c["what"], "mesh": c["mesh"]["shape"], "root": c.get("root"),
-                              "n": o.get("n"), "edges": o.get("edges", [])[:8]} if nontriv else None)
-        m = oracle(c, o)
-        if m:
-            fails.append((idx, m))
+                   % (len(replaced), n_all), "harness", len(replaced) * 50 <= max(1, n_all),
+                   "; ".join("%s: %s" % (w, f[:80]) for w, f in replaced[:5]))
     ctx.obligation("oracle: every tree / forest returned by the implementation satisfies the C10 sentence "
                    "(brute-force components, hop distances, Prim minimum)", "oracle-on-implementation", not fails,
                    "%d failing cases" % len(fails))
 
-    # ---- kernel-checked correspondence
-    bad = {}
-    if b["model_ok"]:
-        groups = {"tree": ([], [], "check_tree", "tcase", tree_term),
-                  "forest": ([], [], "check_forest", "fcase", forest_term),
-                  "kruskal": ([], [], "check_kruskal", "kcase", kruskal_term)}
-        for idx, (c, o) in enumerate(zip(cases, obs)):
-            if "crash" in o:
-                continue
-            g = groups[c["op"]]
-            g[0].append(idx)
-            g[1].append(g[4](c, o))
-        for name, (idxs, terms, fn, ty, _) in groups.items():
-            r = ctx.run_cases(name, HEADER, terms, fn, case_type=ty, shard=60 if quick else 120, timeout=900)
-            bad[name] = None if r is None else [idxs[i] for i in r]
-    else:
-        ctx.obligation("correspondence batches", "correspondence", False, "model does not compile")
-
     # ---- verdicts
-    for idx, msg in fails:
-        ctx.count("FAILING " + classify(cases[idx], msg))
+    for case, msg in fails:
+        ctx.count("FAILING " + classify(case, msg))
     reported = set()
-    for idx, msg in fails[:200]:
-        case = cases[idx]
+    for case, msg in fails[:200]:
         key = classify(case, msg)
         site = (case["op"], case["kind"])
         if site in reported or len(reported) >= 3:      # a few minimised witnesses are enough; all failing keys are in the evidence
@@ -1241,13 +1257,14 @@ def run(ctx):
         ctx.violation("%s on %s: %s" % (case["what"], case["mesh"]["shape"], m2),
                       {"case": small, "observed": {k: v for k, v in o2.items() if k not in ("raw", "tb")},
                        "class": classify(small, m2)}, key=classify(small, m2))
-    disagree = [i for v in bad.values() if v for i in v]
     if disagree and not fails:
-        ctx.notes.append("model and implementation disagree on cases %s but the oracle accepts the implementation's answers" % disagree[:8])
-        for i in disagree[:3]:
-            ctx.log("disagreement on case", i, json.dumps({k: v for k, v in cases[i].items() if k != "mesh"}),
-                    json.dumps(cases[i]["mesh"])[:600])
-            ctx.log("   observed", json.dumps({k: v for k, v in obs[i].items() if k not in ("raw", "tb", "edges_tab", "faces_tab", "cells_tab")})[:900])
+        ctx.notes.append("model and implementation disagree on %d case(s) but the oracle accepts the implementation's answers" % len(disagree))
+        for c, o in disagree[:3]:
+            ctx.log("disagreement on case", json.dumps({k: v for k, v in c.items() if k not in ("mesh", "session")}),
+                    json.dumps(c["mesh"])[:600])
+            ctx.log("   observed", json.dumps({k: v for k, v in o.items() if k not in ("raw", "tb", "edges_tab", "faces_tab", "cells_tab")})[:900])
+
+
 
 
 def replay(ctx, data):
